@@ -18,7 +18,11 @@ TECHNIQUE = ('template/interface agreement: free-variable and compared-literal a
              'domain point; path conditions + truth tables for the constant-range guards; reference tables from the running interpreter '
              '(PyNumber_*/PyObject_RichCompare dispatch observed through ctypes.pythonapi, CPython headers); clang AST for declared copies; '
              'ZDIV: guard extraction + parameter tracing through forwarding calls in the expanded templates, flag expression evaluated on the node class\'s '
-             'default attribute state corrected by a writer analysis (guards on self.type.is_pyobject)')
+             'default attribute state corrected by a writer analysis (guards on self.type.is_pyobject); '
+             'FAST: abstract interpretation of every expanded fast-path function (own C subset parser, goto / preprocessor alternatives included) over the complete sign domain '
+             'of the object operand and of the constant, abstract values constant / object value / digit magnitude / `L op R`; reference tables: Python operator -> C operator, '
+             'the interpreter\'s own int arithmetic for the zero identities; ORDER: path enumeration of the decision function with the two operand parameters as distinguishable '
+             'objects; JOIN: constant folding of the pure string builder pylong_join + structural shift analysis; MANT: bounds vs sys.float_info.mant_dig')
 DECIDES = ('(P1) the context keys passed by optimise_numeric_binop are exactly the variables the three template sections read; '
            '(P2) every string literal a template compares op/order/c_op with lies in that variable\'s value domain; '
            '(P3) for every reachable point of operator x order x return kind x int/float constant the C name computed in Python is a function '
@@ -33,9 +37,22 @@ DECIDES = ('(P1) the context keys passed by optimise_numeric_binop are exactly t
            '(ZDIV) for every reachable CObj point of an operator for which Python raises ZeroDivisionError on a zero right operand (/ // %): the expanded template '
            'contains a ZeroDivisionError raise; the entry-function parameter its guard depends on (traced through the forwarding calls) receives from '
            'optimise_numeric_binop a value that is TRUE for the operator\'s node class (ExprNodes.binop_node_classes) in the attribute state an object-typed '
-           'operation can have (class defaults; writers guarded by `not self.type.is_pyobject` excluded).')
+           'operation can have (class defaults; writers guarded by `not self.type.is_pyobject` excluded); '
+           '(FAST) for every reachable point and every expanded function (__Pyx_Unpacked_*, __Pyx_Float_*, entry, PyFloatBinop, PyLongCompare), on every path for object sign '
+           'zero / positive / negative: an arithmetic result that is returned (or tested, for == / !=) is `left <C operator of the Python operator> right` with the constant '
+           'and the object\'s value on the sides the order says (non-commutative operators), a magnitude read from the digits carries the object\'s sign, the value returned by '
+           'the "operand is zero" shortcut equals L op R with X = 0 (c, 0, -c, ZeroDivisionError or no shortcut), a saturated right shift yields -1 / 0 by the sign of the left '
+           'operand, the floor adjustment after `%` adds the divisor exactly when the remainder is non-zero and its sign differs from the DIVISOR\'s, a ZeroDivisionError is '
+           'only raised where the divisor was tested for zero, predicates/accessors are applied to the object operand (op2 for CObj, op1 for ObjC) and the entry function '
+           'type-tests that operand; PyLongCompare returns "equal" exactly for equal signs and (both zero or no digit difference) and for identical objects, its unrolled '
+           'digit comparison for k+1 digits requires size == k+1 and compares digit i with bits [i*SHIFT,(i+1)*SHIFT); `inplace ? A : B` pairs PyNumber_InPlace<Op> with '
+           'PyNumber_<Op>; (ORDER) on every path of optimise_numeric_binop the template of the reported order unpacks the operand that is NOT the constant; '
+           '(JOIN) pylong_join(1..4) shifts digit i by i*PyLong_SHIFT, each digit once, joined by |; (MANT) every power-of-two / digit-count bound guarding an int -> double '
+           'fast path is <= 53 bits; (INPL) the in-place flag passed equals the node\'s `inplace` attribute (false for comparisons).')
 NOT_DECIDED = ('ZDIV does not decide that EVERY path to the C division passes a zero test (only that the raise exists and its flag is passed as true), nor the '
-               'explicit cdiv()/cmod() and C++-operand states; the digit-level arithmetic of the fast paths (unpacking, overflow of + and - inside the C long branch, float rounding), the '
+               'explicit cdiv()/cmod() and C++-operand states.  FAST works in the sign domain: it does not decide value ranges - overflow of + - * << inside the C long / long long '
+               'branch and the guards that detect it (`a == x >> b`, the size/PyLong_SHIFT tests; see C36-OVF / C07-SHIFT), float rounding, the two\'s complement identity of the '
+               'single-digit `&` shortcut (brainstormed mutants long-lshift-check and long-and-mask are left unreported); nor the '
                'nb_<slot> fallbacks chosen by the template, the generic NotImplemented/subclass protocol of the CPython fallbacks, and whether '
                'the coercions around the call preserve the result type.  The I3 clause of DESIGN.md is decided in the exact form "passed '
                'arguments vs expanded prototype"; the declared CFuncType is only compared for the constant parameter and the return kind.')
@@ -79,6 +96,19 @@ MUTATIONS = [   # (file, single edit, rule that reported it) -- all run on a scr
     ('Cython/Utility/Optimize.c', "PyLongBinop: __Pyx_Unpacked_...(op1, op2, intval, inplace, inplace) (flag not forwarded)", 'C02-ZDIV flag'),
     ('behaviour-preserving (all silent)', "ZDIV: flag computed by an if/else with a renamed local; De Morgan form `not (arg_order != 'CObj' or (node.cdivision if ... else True))`; "
                                           "C parameter zerodivision_check renamed in PyFloatBinop proto+impl", 'silent'),
+    # fourth round: every mutant below is stored with its patch and outcome under mutants/C02/<name>/ (replayed by the thorough tier)
+    ('Cython/Utility/Optimize.c', "long-cop-or-xor, float-cop-sub-plus (c_op rows), long-operand-binding, float-binding (a/b bound the other way round), long-sign-flip, "
+                                  "long-ispos-isneg, long-ll-sign-dropped, float-neg-digits (sign of the unpacked digits), long-zero-{sub-objc,mul-identity,neg-const} "
+                                  "(zero shortcuts), long-rshift-neg, float-mod-sign, float-zerodiv-operand, long-fallback-inplace, cmp-{zero-sense,sign-neg,digit-count,"
+                                  "identity-ne,float-operands-ne}", 'C02-FAST'),
+    ('Cython/Compiler/Optimize.py', "py-order-swapped: arg_order 'CObj' reported for a constant second operand", 'C02-ORDER'),
+    ('Cython/Utility/__init__.py', "long-join-order: pylong_join iterates the digits in ascending order", 'C02-JOIN'),
+    ('Cython/Utility/Optimize.c', "long-truediv-53, float-53-guard: 1 << 53 -> 1 << 62", 'C02-MANT'),
+    ('Cython/Compiler/Optimize.py', "py-inplace-flag: inplace = isinstance(node, NumBinopNode) (was an ANALYSIS-ERROR of the decision-variable detection, fixed)", 'C02-INPL'),
+    ('not reported (declined)', "long-and-mask, long-lshift-check: value-range / bit-level arithmetic, see NOT_DECIDED", 'none'),
+    ('behaviour-preserving (all silent)', "ok-cop-rows-reordered, ok-sign-rewrite (conditional expression, !IsNeg), ok-zero-branches-reordered, ok-py-order-rewrite (conditional "
+                                          "expressions + a second isinstance()-defined local: made enumerate_decider give up before this round - fixed), ok-cmp-rewrite, "
+                                          "ok-float-neg-rewrite, ok-explicit-goto", 'silent'),
     ('behaviour-preserving (all silent)', "rename local numval -> constant_node; cut-off rewritten `not (abs(c) <= 1 << 30)`; rows of the c_op dict reordered; "
                                           "DivInt copy with renamed locals and `q = q - ...`; head-room +30 -> +20; shift guards merged into one positive `if ... and 0 < c < 64`; "
                                           "two handler methods reordered with an extra local", 'silent'),
@@ -215,10 +245,18 @@ def enumerate_decider(fn, ops):
         raise AnalysisError('%s no longer takes (operator, node, ret_type, arg0, arg1)' % DECIDER)
     p_op, p_ret = ps[0], ps[2]
     # boolean decision variables: locals defined by an isinstance() test at the top level of the function
+    # The float/int decision variable: the local defined by an isinstance() test against the float-constant node class alone.  Other isinstance()-defined
+    # locals (operand-order flags, in-place flags) are ordinary unknown tests: they fork.
+    def _tests_float_node(call):
+        if len(call.args) != 2:
+            return False
+        t = call.args[1]
+        name = t.attr if isinstance(t, ast.Attribute) else (t.id if isinstance(t, ast.Name) else None)
+        return name == 'FloatNode'
     bools = [s.targets[0].id for s in fn.body if isinstance(s, ast.Assign) and len(s.targets) == 1 and isinstance(s.targets[0], ast.Name)
-             and isinstance(s.value, ast.Call) and isinstance(s.value.func, ast.Name) and s.value.func.id == 'isinstance']
+             and isinstance(s.value, ast.Call) and isinstance(s.value.func, ast.Name) and s.value.func.id == 'isinstance' and _tests_float_node(s.value)]
     if len(bools) != 1:
-        raise AnalysisError('%s: expected exactly one isinstance()-defined decision variable (is_float), found %r' % (DECIDER, bools))
+        raise AnalysisError('%s: expected exactly one local defined by isinstance(<constant>, FloatNode) (the int/float decision), found %r' % (DECIDER, bools))
     fvar = bools[0]
 
     def on_stmt(s, ev, events):
@@ -627,6 +665,11 @@ def run(ctx):
     rules.append(P.rule_sib(ctx, 'C02-SIB'))
     # ------------------------------------------------------------------------------------------ ZDIV (rules/sC02.py)
     rules.append(sC02.rule_zdiv(ctx, fn, fvar, points, trees, cop, capi_dunder))
+    rules.append(sC02.rule_fast(ctx, points, trees))
+    rules.append(sC02.rule_order(ctx, fn, fvar, points, trees))
+    rules.append(sC02.rule_join(ctx))
+    rules.append(sC02.rule_mant(ctx, points, trees))
+    rules.append(sC02.rule_inplace_flag(ctx, fn, fvar, points))
     return rules
 
 
